@@ -26,7 +26,7 @@ EXPLANATION = (
     "(R8) the greedy shortcut is accepted only after a coverage test that counts the constraint's edges among the *edges* of a path (body of graphutils.max_occurrence) in the unit of the threshold.  "
     " (R2, extended) the exclusive upper end of the k-range is at least |E| + number of subpath constraints + 1: pairwise incompatible constraints need a path each. "
     " (R9) elements of a float generating set that are zero up to the tolerance (solver noise) are not handed to the given-weights model as coefficients. "
-    "input objects are never written (sub-searches work on copies), so a bound computed for one graph cannot leak into the search on another.  NOT decided: minimality, completeness, validity of each provider as a bound."
+    "input objects are never written (sub-searches work on copies), so a bound computed for one graph cannot leak into the search on another.  The greedy shortcut is accepted only against the thresholds of rows 7a (C10.R5), and the safety fixings / prunings of the base class conform to the table.  NOT decided: minimality, completeness, validity of each provider as a bound."
     ' (R9, round 3) the guessed-weights candidates exclude the values of ignored edges; the subgraph-scanning bound skips windows without an edge to explain; the min-gen-set total is used only when every edge has a flow value (both classes).'
 )
 DECIDED = ["search protocol of MinFlowDecomp.solve on every path", "range reaches the largest attainable optimum",
